@@ -1,6 +1,7 @@
 /-
-  std::math::u256 (eight 32-bit limbs, most significant first on the stack): add_unsafe is addition
-  modulo 2^256 (carry chain as linear arithmetic for `omega`), and / xor act limb-wise.
+  std::math::u256 (eight 32-bit limbs, most significant first on the stack): add_unsafe / sub_unsafe are addition / subtraction
+  modulo 2^256 (carry and borrow chains as linear arithmetic for `omega`; the nested symbolic state of
+  the subtraction is flattened bottom-up with `generalize`), and / xor act limb-wise.
 -/
 import Miden.Lemmas.U64Tac
 import Miden.Lemmas.U64Pure
@@ -128,5 +129,127 @@ theorem u256_xor_pure (y0 y1 y2 y3 y4 y5 y6 y7 x0 x1 x2 x3 x4 x5 x6 x7 : Nat) (r
   have p12 : padN 12 r = r := padN_of_le (by omega)
   have p13 : padN 13 r = r := padN_of_le (by omega)
   simp (disch := binb) only [Generated.u256_xor, pure_exec, *]
+
+theorem sub7 (x y : Nat) (hx : x < 4294967296) (hy : y < 4294967296) :
+    ∃ l bo, bo ≤ 1 ∧ l < 4294967296 ∧ x + bo * 4294967296 = y + l ∧
+      (x + two64 - y) % two64 % two32 = l ∧ (x + two64 - y) % two64 / 2 ^ 63 = bo := by
+  by_cases h : y ≤ x
+  · exact ⟨x - y, 0, by omega, by omega, by omega, by simp only [two64, two32]; omega, by simp only [two64, Nat.reducePow]; omega⟩
+  · exact ⟨x + 4294967296 - y, 1, by omega, by omega, by omega, by simp only [two64, two32]; omega, by simp only [two64, Nat.reducePow]; omega⟩
+
+theorem subk (x y b : Nat) (hx : x < 4294967296) (hy : y < 4294967296) (hb : b ≤ 1) :
+    ∃ l bo, bo ≤ 1 ∧ l < 4294967296 ∧ x + bo * 4294967296 = y + b + l ∧
+      (x + two64 - splitLo (fadd b y)) % two64 % two32 = l ∧
+      fadd ((x + two64 - splitLo (fadd b y)) % two64 / 2 ^ 63) (splitHi (fadd b y)) = bo := by
+  have ht : fadd b y = b + y := by simp only [fadd, P]; omega
+  rw [ht]
+  by_cases hfull : b + y = 4294967296
+  · have h1 : splitLo (b + y) = 0 := by simp only [splitLo, two32]; omega
+    have h2 : splitHi (b + y) = 1 := by simp only [splitHi, two32]; omega
+    rw [h1, h2]
+    refine ⟨x, 1, by omega, hx, by omega, ?_, ?_⟩ <;> (simp only [fadd, two64, two32, P, Nat.reducePow]; omega)
+  · have h1 : splitLo (b + y) = b + y := by simp only [splitLo, two32]; omega
+    have h2 : splitHi (b + y) = 0 := by simp only [splitHi, two32]; omega
+    rw [h1, h2]
+    by_cases h : b + y ≤ x
+    · refine ⟨x - (b + y), 0, by omega, by omega, by omega, ?_, ?_⟩ <;> (simp only [fadd, two64, two32, P, Nat.reducePow]; omega)
+    · refine ⟨x + 4294967296 - (b + y), 1, by omega, by omega, by omega, ?_, ?_⟩ <;> (simp only [fadd, two64, two32, P, Nat.reducePow]; omega)
+
+theorem sub0 (x y b : Nat) (hx : x < 4294967296) (hy : y < 4294967296) (hb : b ≤ 1) :
+    ∃ l bo, bo ≤ 1 ∧ l < 4294967296 ∧ x + bo * 4294967296 = y + b + l ∧
+      (x + two64 - splitLo (fadd y b)) % two64 % two32 = l := by
+  have ht : fadd y b = y + b := by simp only [fadd, P]; omega
+  rw [ht]
+  by_cases h : y + b ≤ x
+  · refine ⟨x - (y + b), 0, by omega, by omega, by omega, ?_⟩; (simp only [splitLo, two64, two32]; omega)
+  · refine ⟨x + 4294967296 - (y + b), 1, by omega, by omega, by omega, ?_⟩; (simp only [splitLo, two64, two32]; omega)
+
+/-- Borrow chain of an 8-limb subtraction, limbs most significant first. -/
+theorem sub_chain (x0 x1 x2 x3 x4 x5 x6 x7 y0 y1 y2 y3 y4 y5 y6 y7 l0 l1 l2 l3 l4 l5 l6 l7 b0 b1 b2 b3 b4 b5 b6 b7 : Nat)
+    (e7 : x7 + b7 * 4294967296 = y7 + l7) (e6 : x6 + b6 * 4294967296 = y6 + b7 + l6)
+    (e5 : x5 + b5 * 4294967296 = y5 + b6 + l5) (e4 : x4 + b4 * 4294967296 = y4 + b5 + l4)
+    (e3 : x3 + b3 * 4294967296 = y3 + b4 + l3) (e2 : x2 + b2 * 4294967296 = y2 + b3 + l2)
+    (e1 : x1 + b1 * 4294967296 = y1 + b2 + l1) (e0 : x0 + b0 * 4294967296 = y0 + b1 + l0)
+    (hb0 : b0 ≤ 1)
+    (h0 : l0 < 4294967296) (h1 : l1 < 4294967296) (h2 : l2 < 4294967296) (h3 : l3 < 4294967296) (h4 : l4 < 4294967296) (h5 : l5 < 4294967296) (h6 : l6 < 4294967296) (h7 : l7 < 4294967296) :
+    (x0 * 26959946667150639794667015087019630673637144422540572481103610249216 + x1 * 6277101735386680763835789423207666416102355444464034512896 + x2 * 1461501637330902918203684832716283019655932542976 + x3 * 340282366920938463463374607431768211456 + x4 * 79228162514264337593543950336 + x5 * 18446744073709551616 + x6 * 4294967296 + x7 * 1 + 115792089237316195423570985008687907853269984665640564039457584007913129639936 - (y0 * 26959946667150639794667015087019630673637144422540572481103610249216 + y1 * 6277101735386680763835789423207666416102355444464034512896 + y2 * 1461501637330902918203684832716283019655932542976 + y3 * 340282366920938463463374607431768211456 + y4 * 79228162514264337593543950336 + y5 * 18446744073709551616 + y6 * 4294967296 + y7 * 1)) % 115792089237316195423570985008687907853269984665640564039457584007913129639936 = l0 * 26959946667150639794667015087019630673637144422540572481103610249216 + l1 * 6277101735386680763835789423207666416102355444464034512896 + l2 * 1461501637330902918203684832716283019655932542976 + l3 * 340282366920938463463374607431768211456 + l4 * 79228162514264337593543950336 + l5 * 18446744073709551616 + l6 * 4294967296 + l7 * 1 + 0 * 115792089237316195423570985008687907853269984665640564039457584007913129639936 := by
+  omega
+
+/-- `u256::sub_unsafe`: `[b, a] → [c]` with `c = (a − b) mod 2^256`, for all limbs < 2^32. -/
+theorem u256_sub_pure (y0 y1 y2 y3 y4 y5 y6 y7 x0 x1 x2 x3 x4 x5 x6 x7 : Nat) (r0 r1 r2 : Nat) (r : List Nat) (hr : 13 ≤ r.length)
+    (hx0 : x0 < 4294967296) (hy0 : y0 < 4294967296) (hx1 : x1 < 4294967296) (hy1 : y1 < 4294967296) (hx2 : x2 < 4294967296) (hy2 : y2 < 4294967296) (hx3 : x3 < 4294967296) (hy3 : y3 < 4294967296) (hx4 : x4 < 4294967296) (hy4 : y4 < 4294967296) (hx5 : x5 < 4294967296) (hy5 : y5 < 4294967296) (hx6 : x6 < 4294967296) (hy6 : y6 < 4294967296) (hx7 : x7 < 4294967296) (hy7 : y7 < 4294967296) :
+    runPure Generated.u256_sub_unsafe (y0 :: y1 :: y2 :: y3 :: y4 :: y5 :: y6 :: y7 :: x0 :: x1 :: x2 :: x3 :: x4 :: x5 :: x6 :: x7 :: r0 :: r1 :: r2 :: r)
+      = .ok (((u256of x0 x1 x2 x3 x4 x5 x6 x7 + 115792089237316195423570985008687907853269984665640564039457584007913129639936 - u256of y0 y1 y2 y3 y4 y5 y6 y7) % 115792089237316195423570985008687907853269984665640564039457584007913129639936) / 26959946667150639794667015087019630673637144422540572481103610249216 % 4294967296 :: ((u256of x0 x1 x2 x3 x4 x5 x6 x7 + 115792089237316195423570985008687907853269984665640564039457584007913129639936 - u256of y0 y1 y2 y3 y4 y5 y6 y7) % 115792089237316195423570985008687907853269984665640564039457584007913129639936) / 6277101735386680763835789423207666416102355444464034512896 % 4294967296 :: ((u256of x0 x1 x2 x3 x4 x5 x6 x7 + 115792089237316195423570985008687907853269984665640564039457584007913129639936 - u256of y0 y1 y2 y3 y4 y5 y6 y7) % 115792089237316195423570985008687907853269984665640564039457584007913129639936) / 1461501637330902918203684832716283019655932542976 % 4294967296 :: ((u256of x0 x1 x2 x3 x4 x5 x6 x7 + 115792089237316195423570985008687907853269984665640564039457584007913129639936 - u256of y0 y1 y2 y3 y4 y5 y6 y7) % 115792089237316195423570985008687907853269984665640564039457584007913129639936) / 340282366920938463463374607431768211456 % 4294967296 :: ((u256of x0 x1 x2 x3 x4 x5 x6 x7 + 115792089237316195423570985008687907853269984665640564039457584007913129639936 - u256of y0 y1 y2 y3 y4 y5 y6 y7) % 115792089237316195423570985008687907853269984665640564039457584007913129639936) / 79228162514264337593543950336 % 4294967296 :: ((u256of x0 x1 x2 x3 x4 x5 x6 x7 + 115792089237316195423570985008687907853269984665640564039457584007913129639936 - u256of y0 y1 y2 y3 y4 y5 y6 y7) % 115792089237316195423570985008687907853269984665640564039457584007913129639936) / 18446744073709551616 % 4294967296 :: ((u256of x0 x1 x2 x3 x4 x5 x6 x7 + 115792089237316195423570985008687907853269984665640564039457584007913129639936 - u256of y0 y1 y2 y3 y4 y5 y6 y7) % 115792089237316195423570985008687907853269984665640564039457584007913129639936) / 4294967296 % 4294967296 :: ((u256of x0 x1 x2 x3 x4 x5 x6 x7 + 115792089237316195423570985008687907853269984665640564039457584007913129639936 - u256of y0 y1 y2 y3 y4 y5 y6 y7) % 115792089237316195423570985008687907853269984665640564039457584007913129639936) / 1 % 4294967296 :: r0 :: r1 :: r2 :: r) := by
+  have p1 : padN 1 r = r := padN_of_le (by omega)
+  have p2 : padN 2 r = r := padN_of_le (by omega)
+  have p3 : padN 3 r = r := padN_of_le (by omega)
+  have p4 : padN 4 r = r := padN_of_le (by omega)
+  have p5 : padN 5 r = r := padN_of_le (by omega)
+  have p6 : padN 6 r = r := padN_of_le (by omega)
+  have p7 : padN 7 r = r := padN_of_le (by omega)
+  have p8 : padN 8 r = r := padN_of_le (by omega)
+  have p9 : padN 9 r = r := padN_of_le (by omega)
+  have p10 : padN 10 r = r := padN_of_le (by omega)
+  have p11 : padN 11 r = r := padN_of_le (by omega)
+  have p12 : padN 12 r = r := padN_of_le (by omega)
+  have p13 : padN 13 r = r := padN_of_le (by omega)
+  simp (disch := binb) only [Generated.u256_sub_unsafe, pure_exec, *]
+  generalize hd7 : (x7 + two64 - y7) % two64 = d7
+  generalize hb7 : d7 / 2 ^ 63 = b7
+  generalize ht6 : fadd b7 y6 = t6
+  generalize hd6 : (x6 + two64 - splitLo t6) % two64 = d6
+  generalize hb6 : fadd (d6 / 2 ^ 63) (splitHi t6) = b6
+  generalize ht5 : fadd b6 y5 = t5
+  generalize hd5 : (x5 + two64 - splitLo t5) % two64 = d5
+  generalize hb5 : fadd (d5 / 2 ^ 63) (splitHi t5) = b5
+  generalize ht4 : fadd b5 y4 = t4
+  generalize hd4 : (x4 + two64 - splitLo t4) % two64 = d4
+  generalize hb4 : fadd (d4 / 2 ^ 63) (splitHi t4) = b4
+  generalize ht3 : fadd b4 y3 = t3
+  generalize hd3 : (x3 + two64 - splitLo t3) % two64 = d3
+  generalize hb3 : fadd (d3 / 2 ^ 63) (splitHi t3) = b3
+  generalize ht2 : fadd b3 y2 = t2
+  generalize hd2 : (x2 + two64 - splitLo t2) % two64 = d2
+  generalize hb2 : fadd (d2 / 2 ^ 63) (splitHi t2) = b2
+  generalize ht1 : fadd b2 y1 = t1
+  generalize hd1 : (x1 + two64 - splitLo t1) % two64 = d1
+  generalize hb1 : fadd (d1 / 2 ^ 63) (splitHi t1) = b1
+  generalize ht0 : fadd y0 b1 = t0
+  generalize hd0 : (x0 + two64 - splitLo t0) % two64 = d0
+  obtain ⟨l7, bo7, hbo7, hl7, e7, q7l, q7b⟩ := sub7 x7 y7 hx7 hy7
+  have hb7' : bo7 = b7 := by rw [← hb7, ← hd7]; exact q7b.symm
+  have hq7 : d7 % two32 = l7 := by rw [← hd7]; exact q7l
+  subst hb7'
+  obtain ⟨l6, bo6, hbo6, hl6, e6, q6l, q6b⟩ := subk x6 y6 bo7 hx6 hy6 hbo7
+  have hb6' : bo6 = b6 := by rw [← hb6, ← hd6, ← ht6]; exact q6b.symm
+  have hq6 : d6 % two32 = l6 := by rw [← hd6, ← ht6]; exact q6l
+  subst hb6'
+  obtain ⟨l5, bo5, hbo5, hl5, e5, q5l, q5b⟩ := subk x5 y5 bo6 hx5 hy5 hbo6
+  have hb5' : bo5 = b5 := by rw [← hb5, ← hd5, ← ht5]; exact q5b.symm
+  have hq5 : d5 % two32 = l5 := by rw [← hd5, ← ht5]; exact q5l
+  subst hb5'
+  obtain ⟨l4, bo4, hbo4, hl4, e4, q4l, q4b⟩ := subk x4 y4 bo5 hx4 hy4 hbo5
+  have hb4' : bo4 = b4 := by rw [← hb4, ← hd4, ← ht4]; exact q4b.symm
+  have hq4 : d4 % two32 = l4 := by rw [← hd4, ← ht4]; exact q4l
+  subst hb4'
+  obtain ⟨l3, bo3, hbo3, hl3, e3, q3l, q3b⟩ := subk x3 y3 bo4 hx3 hy3 hbo4
+  have hb3' : bo3 = b3 := by rw [← hb3, ← hd3, ← ht3]; exact q3b.symm
+  have hq3 : d3 % two32 = l3 := by rw [← hd3, ← ht3]; exact q3l
+  subst hb3'
+  obtain ⟨l2, bo2, hbo2, hl2, e2, q2l, q2b⟩ := subk x2 y2 bo3 hx2 hy2 hbo3
+  have hb2' : bo2 = b2 := by rw [← hb2, ← hd2, ← ht2]; exact q2b.symm
+  have hq2 : d2 % two32 = l2 := by rw [← hd2, ← ht2]; exact q2l
+  subst hb2'
+  obtain ⟨l1, bo1, hbo1, hl1, e1, q1l, q1b⟩ := subk x1 y1 bo2 hx1 hy1 hbo2
+  have hb1' : bo1 = b1 := by rw [← hb1, ← hd1, ← ht1]; exact q1b.symm
+  have hq1 : d1 % two32 = l1 := by rw [← hd1, ← ht1]; exact q1l
+  subst hb1'
+  obtain ⟨l0, bo0, hbo0, hl0, e0, q0l⟩ := sub0 x0 y0 bo1 hx0 hy0 hbo1
+  have hq0 : d0 % two32 = l0 := by rw [← hd0, ← ht0]; exact q0l
+  have hsum := sub_chain x0 x1 x2 x3 x4 x5 x6 x7 y0 y1 y2 y3 y4 y5 y6 y7 l0 l1 l2 l3 l4 l5 l6 l7 bo0 bo1 bo2 bo3 bo4 bo5 bo6 bo7 e7 e6 e5 e4 e3 e2 e1 e0 hbo0
+    hl0 hl1 hl2 hl3 hl4 hl5 hl6 hl7
+  obtain ⟨m0, m1, m2, m3, m4, m5, m6, m7⟩ := limb_of l0 l1 l2 l3 l4 l5 l6 l7 0 hl0 hl1 hl2 hl3 hl4 hl5 hl6 hl7
+  simp only [u256of]
+  rw [hsum, m0, m1, m2, m3, m4, m5, m6, m7, hq0, hq1, hq2, hq3, hq4, hq5, hq6, hq7]
 
 end Miden.U256
